@@ -590,27 +590,40 @@ func fanOut(ch *Check, c *Ctx, work string, procs int, merged *Report) []crash {
 		}
 		crashes = append(crashes, cr)
 	}
-	// reproduce each crash in isolation
+	// reproduce each crash in isolation (all of them at once: a stalled case costs a whole watchdog period, and a hang
+	// in zlint usually stalls every worker that meets a member of the same family)
+	var rwg sync.WaitGroup
+	var rmu sync.Mutex
 	for i := range crashes {
 		cr := &crashes[i]
 		if cr.Case < 0 {
 			continue
 		}
-		rctx, rc := context.WithTimeout(context.Background(), 10*time.Minute)
-		out := filepath.Join(work, fmt.Sprintf("repro%d.json", i))
-		cmd := exec.CommandContext(rctx, exe, c.Prop, c.Tier, "-worker", "-only", strconv.Itoa(cr.Case), "-out", out, "-work", work)
-		b, err := cmd.CombinedOutput()
-		rc()
-		if err != nil {
-			cr.Repro = true
-			if len(b) > 6000 {
-				b = b[:6000]
+		rwg.Add(1)
+		go func(i int, cr *crash) {
+			defer rwg.Done()
+			rctx, rc := context.WithTimeout(context.Background(), 10*time.Minute)
+			defer rc()
+			out := filepath.Join(work, fmt.Sprintf("repro%d.json", i))
+			cmd := exec.CommandContext(rctx, exe, c.Prop, c.Tier, "-worker", "-only", strconv.Itoa(cr.Case), "-out", out, "-work", work)
+			if ch.WorkerEnv != nil {
+				cmd.Env = append(os.Environ(), ch.WorkerEnv(c, work)...)
 			}
-			cr.Tail = string(b)
-		} else if rep, err := ReadReport(out); err == nil {
-			merged.Merge(rep)
-		}
+			b, err := cmd.CombinedOutput()
+			rmu.Lock()
+			defer rmu.Unlock()
+			if err != nil {
+				cr.Repro = true
+				if len(b) > 6000 {
+					b = b[:6000]
+				}
+				cr.Tail = string(b)
+			} else if rep, err := ReadReport(out); err == nil {
+				merged.Merge(rep)
+			}
+		}(i, cr)
 	}
+	rwg.Wait()
 	return crashes
 }
 
